@@ -1131,13 +1131,18 @@ fn run_c18_case(rep: &mut Report, ws: &Workspace, case_seed: u64) {
             // the module is the qualifier right before: find it in occs (ends at range.0 - 1)
             let Some(q) = p.occs.iter().find(|o| o.range.1 + 1 == occ.range.0 && matches!(o.ident.bind, Bind::Module { .. })) else { continue };
             let Bind::Module { module, .. } = q.ident.bind else { continue };
+            // asked the way editors ask: right behind the dot with the trigger character; and again while the member
+            // name is being typed - no trigger character then, the cursor behind the dot or behind the letters typed
+            // so far (filtering by prefix is the client's business: the same set is expected)
+            for (at, trigger, how) in [(occ.range.0, Some('.'), ""), (occ.range.0, None, ":no-trigger-character"), (occ.range.1, None, ":no-trigger-character:behind-the-typed-prefix")] {
             rep.evaluations += 1;
-            let out = panicmon::guard(|| an.completions(FilePos::new(file, TextSize::from(occ.range.0 as u32)), Some('.')));
+            rep.see("dot_completion_requests", if how.is_empty() { "trigger-character" } else { &how[1..] });
+            let out = panicmon::guard(|| an.completions(FilePos::new(file, TextSize::from(at as u32)), trigger));
             let items = match out {
                 Outcome::Ok(Ok(Some(items))) => items,
                 _ => continue,
             };
-            let got: BTreeSet<String> = items.iter().map(|i| i.label.to_string()).collect();
+            let got: BTreeSet<String> = items.iter().filter(|i| i.kind != ide::CompletionItemKind::Keyword).map(|i| i.label.to_string()).collect();
             // expected: public functions and constructors of public, non-opaque types of that module
             let mut want: BTreeSet<String> = BTreeSet::new();
             let mut private: BTreeSet<String> = BTreeSet::new();
@@ -1162,16 +1167,17 @@ fn run_c18_case(rep: &mut Report, ws: &Workspace, case_seed: u64) {
                 if want.contains(leak) {
                     continue;
                 }
-                rep.violate("completion-dot-offers-private-item", format!("`{}.` offers `{leak}`, which is private (or a constructor of a private/opaque type) in that module", q.ident.text), rp.clone());
+                rep.violate(format!("completion-dot-offers-private-item{how}"), format!("`{}.` offers `{leak}`, which is private (or a constructor of a private/opaque type) in that module", q.ident.text), rp.clone());
             }
             for m in want.difference(&got) {
-                rep.violate("completion-dot-missing-public-item", format!("`{}.` does not offer public `{m}`; offered {got:?}", q.ident.text), rp.clone());
+                rep.violate(format!("completion-dot-missing-public-item{how}"), format!("`{}.` does not offer public `{m}`; offered {got:?}", q.ident.text), rp.clone());
             }
             for e in got.difference(&want) {
                 if private.contains(e) {
                     continue;
                 }
-                rep.violate("completion-dot-extra", format!("`{}.` offers `{e}` which is neither a public function nor a constructor of that module", q.ident.text), rp.clone());
+                rep.violate(format!("completion-dot-extra{how}"), format!("`{}.` offers `{e}` which is neither a public function nor a constructor of that module", q.ident.text), rp.clone());
+            }
             }
             rep.count("dot_completion_checks", 1);
         }
